@@ -58,13 +58,62 @@ class Surface:
         self.g = C.grammar(F)
         self.lm = C.lexmodel(F)
         self.nts = set(self.g.nonterminals)
+        self.levels: Dict[str, Tuple[float, str]] = dict(LEVELS)
+        self.declared_operators: Dict[str, str] = {}
+        self._declared_rows()
+
+    def _declared_rows(self) -> None:
+        """A binary operator the published table does not know (`expression TOK expression` with a fixed spelling and a
+        precedence row of its own) is defined by its declaration: the level of the known operators of its row, or a level
+        strictly between the known rows around it, and the associativity the row declares."""
+        rows = list(self.g.precedence)
+        fict = {'UMINUS': 'unary -', 'UNOT': 'unary not'}
+
+        def known_level(row):
+            ls = set()
+            for t in row[1:]:
+                tx = fict.get(t) or self.text(t)
+                if tx == 'not':
+                    tx = 'not in'
+                if tx in LEVELS:
+                    ls.add(LEVELS[tx][0])
+            return ls
+        known = [known_level(r) for r in rows]
+        for p in self.g.productions[1:]:
+            r = p.rhs
+            if not (len(r) == 3 and r[0] == r[2] == 'expression' and r[1] not in self.nts):
+                continue
+            tx = self.text(r[1])
+            if tx is None or tx in LEVELS or tx in self.levels:
+                continue
+            at = [i for i, row in enumerate(rows) if r[1] in row[1:]]
+            if len(at) != 1:
+                continue
+            i = at[0]
+            if known[i]:
+                if len(known[i]) != 1:
+                    continue
+                lvl = float(next(iter(known[i])))
+            else:
+                below = [max(k) for k in known[:i] if k]
+                above = [min(k) for k in known[i + 1:] if k]
+                lo = max(below) if below else -1.0
+                hi = min(above) if above else 10.0
+                if not lo < hi:
+                    continue
+                lvl = (lo + hi) / 2.0
+            self.levels[tx] = (lvl, rows[i][0])
+            self.declared_operators[tx] = 'row %d of the precedence declaration (%s, level %s of the published scale)' % (i + 1, rows[i][0], lvl)
 
     def text(self, tok: str) -> Optional[str]:
         t = self.lm.token_texts.get(tok)
         if t is not None and len(t) == 1:
             return next(iter(t))
         if t is None and tok in self.lm.rules:
-            return _spaced_words(self.lm.rules[tok].parsed)
+            w = _spaced_words(self.lm.rules[tok].parsed)
+            if w is None and isinstance(self.lm.const_value.get(tok), str):
+                return self.lm.const_value[tok]     # the rule rewrites every match to one spelling
+            return w
         return None
 
     def is_expr(self, s: str) -> bool:
@@ -77,7 +126,7 @@ class Surface:
             return None
         if tx == 'not':
             return 'not in'
-        if tx in LEVELS:
+        if tx in self.levels:
             return tx
         return None
 
@@ -85,7 +134,7 @@ class Surface:
         rhs = p.rhs
         tx = [self.text(s) if s not in self.nts else None for s in rhs]
         n = len(rhs)
-        if n == 3 and self.is_expr(rhs[0]) and self.is_expr(rhs[2]) and tx[1] in LEVELS and tx[1] not in ('.', '|', '[', 'if'):
+        if n == 3 and self.is_expr(rhs[0]) and self.is_expr(rhs[2]) and tx[1] in self.levels and tx[1] not in ('.', '|', '[', 'if'):
             return ('binary', tx[1])
         if n == 4 and self.is_expr(rhs[0]) and self.is_expr(rhs[3]) and tx[1] == 'not' and tx[2] == 'in':
             return ('binary', 'not in')
@@ -111,8 +160,8 @@ def expected_action(sf: Surface, p: Production, tok: str) -> Tuple[Optional[str]
     if kind in ('binary', 'prefix'):
         if op is None:
             return (None, 'lookahead %s is not an operator' % tok)
-        lp, assoc = LEVELS[what]
-        lt, _ = LEVELS[op]
+        lp, assoc = sf.levels[what]
+        lt, _ = sf.levels[op]
         if lp > lt:
             return ('reduce', '%s binds tighter than %s' % (what, op))
         if lp < lt:
@@ -128,8 +177,8 @@ def expected_action(sf: Surface, p: Production, tok: str) -> Tuple[Optional[str]
         if tx == '(':
             return ('shift', 'x %s f followed by ( is a call with arguments' % what)
         if op is not None:
-            lp = LEVELS[what][0]
-            lt = LEVELS[op][0]
+            lp = sf.levels[what][0]
+            lt = sf.levels[op][0]
             return ('reduce' if lp >= lt else 'shift', 'suffix level versus %s' % op)
         return (None, '')
     if kind == 'unit' and tx == ']':
@@ -161,6 +210,8 @@ def check(chk: Check) -> None:
     T = C.tables(F)
     TP = C.templates(F)
     sf = Surface(F)
+    if sf.declared_operators:
+        chk.extra['operators_defined_by_their_declaration'] = sf.declared_operators
     chk.extra['automaton'] = {'states': len(T.kernels), 'productions': len(g.productions), 'sr_conflicts_counted': T.sr_count,
                               'rr_conflicts': T.rr_count, 'decisions': len(T.decisions)}
 
